@@ -680,4 +680,83 @@ Section P.
       + cbn [crun]. f_equal. symmetry. apply absv_eq; try reflexivity.
         cbn [actors]. apply updf_other2. apply N.eqb_neq. apply N.eqb_neq in Ea. congruence.
   Qed.
+
+  Lemma sim_run : forall s a c ls (st st' : state),
+    WInv st -> okfor s a c st ls -> run st ls = Some st' ->
+    crun0 (cv c) (absv C s a st) (projs C s a ls) = Some (absv C s a st') /\ WInv st'.
+  Proof.
+    intros s a c. induction ls as [|l t IH]; intros st st' I Ok H; cbn in H.
+    - inversion H; subst. split; [reflexivity|assumption].
+    - destruct (V2.step C cv true st l) as [st1|] eqn:E; [|discriminate].
+      destruct (sim_step s a c st st1 l t I Ok E) as [S1 Ok1].
+      pose proof (winv_step _ _ _ I E) as I1.
+      destruct (IH _ _ I1 Ok1 H) as [S2 I2]. split; [|assumption].
+      unfold projs. cbn [flat_map]. rewrite crun_app, S1. exact S2.
+  Qed.
+
+  Theorem v2_refines : forall ls st s a c, run (init C) ls = Some st ->
+    conv_of C s ls = Some (a, c) ->
+    crun0 (cv c) ainit (projs C s a ls) = Some (absv C s a st).
+  Proof.
+    intros ls st s a c H Hc.
+    change ainit with (absv C s a (init C)).
+    apply (sim_run s a c ls (init C) st winv_init); [|exact H].
+    unfold okfor. cbn. intros a' c' E. rewrite Hc in E. inversion E; subst. split; reflexivity.
+  Qed.
+
+  Lemma apubs_on_projs : forall s a ls, apubs_on (projs C s a ls) = pubs_on C ls.
+  Proof.
+    intros s a. induction ls as [|l t IH]; [reflexivity|].
+    unfold projs in *. cbn [flat_map]. destruct l; cbn [proj pubs_on]; try exact IH.
+    - cbn. rewrite IH. reflexivity.
+    - destruct (N.eqb s0 s); cbn; exact IH.
+    - destruct (N.eqb s0 s); cbn; exact IH.
+    - destruct (oeqb r (Some s)); cbn; exact IH.
+    - destruct (N.eqb s0 s); cbn; exact IH.
+    - destruct (N.eqb a0 a); cbn; exact IH.
+  Qed.
+
+  Lemma apubs_projs : forall s a ls, apubs (projs C s a ls) = pubs_after C s ls.
+  Proof.
+    intros s a. induction ls as [|l t IH]; [reflexivity|].
+    unfold projs in *. cbn [flat_map]. destruct l; cbn [proj pubs_after]; try exact IH.
+    - destruct (N.eqb s0 s); cbn; [apply apubs_on_projs|exact IH].
+    - destruct (N.eqb s0 s); cbn; exact IH.
+    - destruct (oeqb r (Some s)); cbn; exact IH.
+    - destruct (N.eqb s0 s); cbn; exact IH.
+    - destruct (N.eqb a0 a); cbn; exact IH.
+  Qed.
+
+  Lemma received_absv : forall s a (st : state), received C st s a = c_got (absv C s a st).
+  Proof.
+    intros s a st. unfold received, absv.
+    destruct (decl C st s); [destruct (backlog C st s)|]; reflexivity.
+  Qed.
+
+  (* v2: none skipped — received is a prefix of everything owed, and while the port still
+     serves the subscription and its actor lives, received ++ mailbox ++ not yet dispatched
+     is exactly everything owed *)
+  Theorem v2_exact : forall ls st s a c, run (init C) ls = Some st ->
+    conv_of C s ls = Some (a, c) ->
+    prefix (received C st s a) (filter_map (cv c) (pubs_after C s ls))
+    /\ (let x := absv C s a st in active x = true -> c_alive x = true ->
+        c_got x ++ c_mbox x ++ filter_map (cv c) (held x ++ c_backlog x)
+        = filter_map (cv c) (pubs_after C s ls)).
+  Proof.
+    intros ls st s a c H Hc. pose proof (v2_refines _ _ _ _ _ H Hc) as R.
+    rewrite received_absv, <- (apubs_projs s a ls). split.
+    - eapply sub1_nocap_prefix; [reflexivity|exact R].
+    - intros x A Al. eapply sub1_nocap_exact; [reflexivity|exact R|exact A|exact Al].
+  Qed.
+
+  Theorem v2_inert : forall ls1 ls2 st1 st2 s a c,
+    run (init C) ls1 = Some st1 -> run (init C) ls2 = Some st2 ->
+    conv_of C s ls1 = Some (a, c) -> conv_of C s ls2 = Some (a, c) ->
+    projs C s a ls1 = projs C s a ls2 ->
+    absv C s a st1 = absv C s a st2.
+  Proof.
+    intros ls1 ls2 st1 st2 s a c H1 H2 C1 C2 P.
+    pose proof (v2_refines _ _ _ _ _ H1 C1) as R1. pose proof (v2_refines _ _ _ _ _ H2 C2) as R2.
+    rewrite P in R1. rewrite R1 in R2. inversion R2. reflexivity.
+  Qed.
 End P.
